@@ -14,6 +14,7 @@ package simrt
 import (
 	"fmt"
 	"reflect"
+	"runtime"
 	"runtime/debug"
 	"strconv"
 	"sync"
@@ -94,6 +95,26 @@ type abortPanic struct{}
 
 func (abortPanic) Error() string { return "simrt: run aborted (budget exceeded or deadlock)" }
 
+// abortTask unwinds the calling task of an aborted run.  The first sentinel panics are ordinary
+// panics (the code under test may recover them and return errors upward, which is the quick way
+// out); a task that is still running after a hundred of them leaves through runtime.Goexit,
+// which runs the deferred functions but cannot be recovered or re-raised: code that wraps every
+// call level in a recover-and-panic-again handler makes panic unwinding quadratic in the stack
+// depth, and a change that makes templates recurse without bound is exactly the case in which
+// the stack is hundreds of thousands of frames deep when the step budget runs out.
+//
+//go:norace
+func abortTask(s *Sim) {
+	if t := s.current; t != nil {
+		t.abortPanics++
+		if t.abortPanics > 100 {
+			t.exiting = true
+			runtime.Goexit()
+		}
+	}
+	panic(abortPanic{})
+}
+
 // IsAbort reports whether v (a recovered panic value or an error) is, or wraps, the sentinel
 // that the simulator raises in every task once a run has been aborted.
 func IsAbort(v interface{}) bool {
@@ -172,25 +193,28 @@ const (
 )
 
 type task struct {
-	id        int
-	name      string
-	resume    chan resumeMsg
-	state     taskState
-	isMain    bool
-	spawnSite int
-	lastSite  int
-	blockCh   uintptr
-	blockKind reqKind
-	blockSite int
-	wakeMode  int
-	prio      int64
-	sel       []selCaseReq // non-nil while blocked in a select
-	selIdx    int
-	wakeAt    int64   // blocked in reqSleep: simulated time (ns) of the wake-up
-	timer     bool    // the task behind a simulated timer
-	daemon    bool    // the task behind a simulated ticker: never counted as left behind
-	tickCh    uintptr // its channel
-	waitSeq   int64   // blocked in reqCondWait: arrival order
+	id          int
+	name        string
+	resume      chan resumeMsg
+	state       taskState
+	isMain      bool
+	spawnSite   int
+	lastSite    int
+	blockCh     uintptr
+	blockKind   reqKind
+	blockSite   int
+	wakeMode    int
+	prio        int64
+	sel         []selCaseReq // non-nil while blocked in a select
+	selIdx      int
+	wakeAt      int64   // blocked in reqSleep: simulated time (ns) of the wake-up
+	timer       bool    // the task behind a simulated timer
+	daemon      bool    // the task behind a simulated ticker: never counted as left behind
+	tickCh      uintptr // its channel
+	waitSeq     int64   // blocked in reqCondWait: arrival order
+	grace       int     // yields that pass without a sentinel panic while the task is being aborted
+	abortPanics int     // sentinel panics raised in this task
+	exiting     bool    // the task leaves through runtime.Goexit
 }
 
 type chanState struct {
@@ -306,8 +330,15 @@ func Run(cfg Config, mainFn func()) *Result {
 	s.setNextStop()
 	setCur(s)
 	go schedLoop(s)
-	runMain(s, main, mainFn)
+	// the main task has a goroutine of its own (it may have to leave through runtime.Goexit); its
+	// end is a visible synchronisation, so everything mainFn wrote happens-before Run returns
+	mainExited := make(chan struct{})
+	go func() {
+		defer close(mainExited)
+		runMain(s, main, mainFn)
+	}()
 	<-s.done // visible synchronisation: everything the scheduler wrote happens-before here
+	<-mainExited
 	setCur(nil)
 	s.res.Steps = s.steps
 	s.res.Tasks = len(s.tasks)
@@ -355,7 +386,22 @@ func Yield(site int) {
 //go:norace
 func yieldSlow(s *Sim, site int) {
 	if s.aborted {
-		panic(abortPanic{})
+		// A task being unwound gets a few free yields after every sentinel panic: deferred functions
+		// of the code under test start with a yield of their own (before their recover), and a panic
+		// raised there while the previous one is still in flight nests; ten thousand frames deep that
+		// makes the Go runtime's unwinding quadratic (a seeded change with unbounded template
+		// recursion took longer than the watchdog allows to abort).
+		if t := s.current; t != nil {
+			if t.exiting {
+				return // deferred functions run to their end while the goroutine exits
+			}
+			if t.grace > 0 {
+				t.grace--
+				return
+			}
+			t.grace = 64
+		}
+		abortTask(s)
 	}
 	if s.nopreempt > 0 && s.steps < s.budget {
 		return
@@ -371,7 +417,7 @@ func (s *Sim) call(r request) resumeMsg {
 	m := <-t.resume
 	raceEnable()
 	if m.abort {
-		panic(abortPanic{})
+		abortTask(s)
 	}
 	return m
 }
@@ -390,7 +436,7 @@ func Go(site int, f func()) {
 		return
 	}
 	if s.aborted {
-		panic(abortPanic{})
+		abortTask(s)
 	}
 	child := &task{resume: make(chan resumeMsg, 1), spawnSite: site}
 	go taskMain(s, child, f)
@@ -407,7 +453,7 @@ func Spawn(name string, f func()) {
 		panic("simrt: Spawn outside Run")
 	}
 	if s.aborted {
-		panic(abortPanic{})
+		abortTask(s)
 	}
 	child := &task{resume: make(chan resumeMsg, 1), spawnSite: -1, name: name}
 	go taskMain(s, child, f)
@@ -454,7 +500,7 @@ func ExtendBudget(n int64) {
 		return
 	}
 	if s.aborted {
-		panic(abortPanic{})
+		abortTask(s)
 	}
 	s.budget = s.steps + n
 	if s.nextStop > s.budget || s.nextStop == 0 {
@@ -472,7 +518,7 @@ func Idle() []LeakInfo {
 		return nil
 	}
 	if s.aborted {
-		panic(abortPanic{})
+		abortTask(s)
 	}
 	s.steps++
 	s.call(request{kind: reqIdle, t: s.current})
@@ -566,7 +612,7 @@ func Close[T any](c chan<- T, site int) {
 		return
 	}
 	if isAborted(s) {
-		panic(abortPanic{})
+		abortTask(s)
 	}
 	close(c) // never blocks; panics exactly as in Go if c is nil or closed
 	notifyClose(s, chanIDSend(c), site, c)
@@ -584,7 +630,7 @@ func notifyClose(s *Sim, ch uintptr, site int, ref interface{}) {
 //go:norace
 func before(s *Sim, kind reqKind, ch uintptr, capacity int, site int, ref interface{}) int {
 	if s.aborted {
-		panic(abortPanic{})
+		abortTask(s)
 	}
 	t := s.current
 	s.steps++
@@ -695,7 +741,7 @@ func acquired(s *Sim, site int) {
 //go:norace
 func lockFail(s *Sim, key uintptr, site int) {
 	if s.aborted {
-		panic(abortPanic{})
+		abortTask(s)
 	}
 	s.steps++
 	s.call(request{kind: reqLockFail, t: s.current, ch: key, site: site})
@@ -1442,7 +1488,7 @@ func Select(site int, hasDefault bool, cases ...SelCase) int {
 //go:norace
 func selectReq(s *Sim, site int, hasDefault bool, reqs []selCaseReq) (int, int) {
 	if s.aborted {
-		panic(abortPanic{})
+		abortTask(s)
 	}
 	t := s.current
 	s.steps++
@@ -1637,7 +1683,7 @@ func wgCount(wg *sync.WaitGroup, d int) int {
 //go:norace
 func wgBlock(s *Sim, key uintptr, site int) {
 	if s.aborted {
-		panic(abortPanic{})
+		abortTask(s)
 	}
 	s.steps++
 	s.call(request{kind: reqWgWait, t: s.current, ch: key, site: site})
